@@ -57,6 +57,7 @@ thread_local! {
     static PREEMPT: RefCell<BTreeMap<Pid, u8>> = const { RefCell::new(BTreeMap::new()) };
     static CURRENT: Cell<Option<Pid>> = const { Cell::new(None) };
     static OFD_SERIAL: Cell<u64> = const { Cell::new(0) };
+    static SUPPRESS_ALLOC_CHECK: Cell<bool> = const { Cell::new(false) };
 }
 
 /// Returns a fresh serial number for an open file description.
@@ -103,7 +104,16 @@ pub fn event(pid: Pid, kind: &'static str, a: i64, b: i64) {
 
 /// Returns true if the file-descriptor allocation should fail.
 pub fn fail_fd_alloc(pid: Pid, site: &'static str) -> bool {
+    if SUPPRESS_ALLOC_CHECK.with(|c| c.replace(false)) {
+        return false;
+    }
     hook().is_some_and(|h| h.fail_fd_alloc(pid, site))
+}
+
+/// Makes the next [`fail_fd_alloc`] call return false without consulting the
+/// hook (the caller has already consulted it for the same allocation).
+pub fn suppress_next_fd_alloc_check() {
+    SUPPRESS_ALLOC_CHECK.with(|c| c.set(true));
 }
 
 /// Returns the error with which the read/write of a regular file should fail.
